@@ -60,6 +60,8 @@ type link struct {
 	stallUntil time.Duration
 	// tap sees every delivered packet just before it is handed over.
 	tap func(b []byte)
+	// onSend sees every packet the endpoint offers, before any fault.
+	onSend func(b []byte)
 	// sendLag: the send callback returns only this long after the packet is
 	// on its way (a transport whose write call completes late).
 	sendLag time.Duration
@@ -123,7 +125,11 @@ func (l *link) send(ctx context.Context, b []byte) error {
 	now := l.rc.Now()
 	l.mu.Lock()
 	stall := l.stallUntil
+	onSend := l.onSend
 	l.mu.Unlock()
+	if onSend != nil {
+		onSend(cp)
+	}
 	if stall > now {
 		l.rc.Fault("send-stall")
 		select {
